@@ -36,6 +36,8 @@ def run(rep, tier):
         stats = walkers.check_transform(fns, what, lambda rule, msg: found.append((rule, msg)))
         from .. import objects
         objects.check_replace(tree, what, lambda rule, msg: found.append((rule, msg)))
+        # the emptiness test on the replacement's metadata presupposes that new objects start empty
+        objects.check_metadata(tree, what, lambda rule, msg: found.append((rule, msg)) if rule.startswith('C16-') else None)
         rep.count('transform implementations analysed')
         rep.count('paths enumerated', stats['paths'])
         rep.obligations += len(RULES)
